@@ -293,6 +293,10 @@ func extractCallSignature(call *ssa.Call) string {
 
 	switch v := call.Call.Value.(type) {
 	case *ssa.Function:
+		// A recursive call must not put the function's own name into its call profile.
+		if v == call.Parent() {
+			return "self:recursive"
+		}
 		return extractFunctionSig(v)
 	case *ssa.Builtin:
 		return fmt.Sprintf("builtin:%s", v.Name())
